@@ -1,4 +1,8 @@
-import multiprocessing, os, signal, time, traceback
+"""Runs check items in parallel, one forked process per item, each with a wall-clock budget (SIGALRM inside, hard kill outside) and an
+address-space limit, so that a diverging oracle or CAS call turns into a counted 'skipped' item instead of hanging or exhausting memory."""
+import multiprocessing, os, pickle, resource, signal, time, traceback
+
+MEM_LIMIT = int(os.environ.get('VERIF_ITEM_MEM_GB', '6')) * 1024 ** 3
 
 
 class ItemTimeout(Exception): pass
@@ -7,8 +11,11 @@ class ItemTimeout(Exception): pass
 def _alarm(sig, frm): raise ItemTimeout()
 
 
-def _run(args):
-    fn, item, budget = args
+def _child(fn, item, budget, conn):
+    try:
+        resource.setrlimit(resource.RLIMIT_AS, (MEM_LIMIT, MEM_LIMIT))
+    except Exception:
+        pass
     signal.signal(signal.SIGALRM, _alarm)
     signal.alarm(int(budget))
     t = time.time()
@@ -16,16 +23,47 @@ def _run(args):
         r = fn(item)
     except ItemTimeout:
         r = dict(status='skipped', why='judge budget exceeded')
+    except MemoryError:
+        r = dict(status='skipped', why='judge memory limit exceeded')
     except Exception as ex:
         r = dict(status='machinery-error', why=''.join(traceback.format_exception(ex))[-2500:])
     finally:
         signal.alarm(0)
     r['wall'] = round(time.time() - t, 2)
-    return r
+    try:
+        conn.send(r)
+    except Exception as ex:
+        conn.send(dict(status='machinery-error', why=f'result not picklable: {ex}', wall=r.get('wall', 0)))
+    conn.close()
 
 
 def run_items(fn, items, budget=240, procs=None):
     procs = procs or min(16, os.cpu_count() or 4)
-    if not items: return []
-    with multiprocessing.get_context('fork').Pool(min(procs, len(items))) as pool:
-        return pool.map(_run, [(fn, it, budget) for it in items], chunksize=1)
+    ctx = multiprocessing.get_context('fork')
+    results = [None] * len(items)
+    pending = list(range(len(items)))
+    running = {}          # idx -> (process, conn, start)
+    while pending or running:
+        while pending and len(running) < procs:
+            i = pending.pop(0)
+            pc, cc = ctx.Pipe(duplex=False)
+            p = ctx.Process(target=_child, args=(fn, items[i], budget, cc), daemon=True)
+            p.start(); cc.close()
+            running[i] = (p, pc, time.time())
+        done = []
+        for i, (p, pc, t0) in running.items():
+            if pc.poll(0):
+                try: results[i] = pc.recv()
+                except EOFError: results[i] = dict(status='skipped', why='worker died (killed or out of memory)', wall=round(time.time() - t0, 2))
+                done.append(i)
+            elif not p.is_alive():
+                results[i] = dict(status='skipped', why='worker died (killed or out of memory)', wall=round(time.time() - t0, 2)); done.append(i)
+            elif time.time() - t0 > budget + 30:
+                p.kill(); results[i] = dict(status='skipped', why='judge budget exceeded (hard kill)', wall=round(time.time() - t0, 2)); done.append(i)
+        for i in done:
+            p, pc, _ = running.pop(i)
+            p.join(timeout=5)
+            if p.is_alive(): p.kill()
+            pc.close()
+        if not done: time.sleep(0.05)
+    return results
